@@ -283,12 +283,11 @@ def run(res, replay=None):
         rep = {"type_xml": t.xml, "which": w, "primitive": t.prim, "attribute_text": ex,
                "header_text": h_text, "model_generator_text": g_text, "expected_value": exp,
                "model_value_of_header_text": lit}
+        # The literal TEXT is not constrained by the property (only the value it denotes is): the model's
+        # rendering differs harmlessly from the generator's (e.g. `-0` vs `0`, `10` vs `010.0` for a float).
+        # A text difference is therefore only counted; the value checks below and the static_assert block decide.
         if h_text != g_text:
-            found = True
-            t.usable = False
-            res.violation("gen-text:%s:%s" % (kind, "leading-zero" if ex and re.match(r"[-+]?0\d", ex) else w),
-                          "%s: sbeppc printed `%s` for %sValue%s, the (repaired) generator model prints `%s`"
-                          % (t.xml, h_text, w, "=\"%s\"" % ex if ex else " (default)", g_text), rep)
+            res.extra["literal_text_differs_from_model"] = res.extra.get("literal_text_differs_from_model", 0) + 1
         if lit.startswith("ok"):
             if int(lit.split()[1]) != exp:
                 found = True
